@@ -84,7 +84,7 @@ func (c Case) coq() string {
 	}
 	return lib.App("mkcase", lib.Z(c.TLo), lib.Z(c.THi), lib.Z(c.Nbf), lib.Z(c.Exp),
 		lib.Bool(c.Other == ""), lib.Bool(c.Pongs), lib.List(data), zs(c.UPongAt), zs(c.CPingAt),
-		lib.OptionOf(c.CCloseAt != 0, lib.Z(c.CCloseAt)), lib.Z(c.WatchUntil), lib.Bool(c.Accepted), closed)
+		lib.OptionOf(c.CCloseAt != 0, lib.Z(c.CCloseAt)), lib.Z(c.WatchUntil), lib.Z(c.LastFrom), lib.Z(c.LastTo), lib.Bool(c.Accepted), closed)
 }
 
 // ---------------------------------------------------------------- the relay under test
